@@ -34,6 +34,8 @@ type Fill struct {
 	Load []ops.Op `json:"load,omitempty"`
 	// gradient block (styling ops that leave the gradient value in CREG[CSEL])
 	Block []ops.Op `json:"block,omitempty"`
+	// Twice: the fill is a blend of the register it is written to, written two times in a row.
+	Twice bool `json:"twice,omitempty"`
 }
 
 type Path struct {
@@ -355,6 +357,14 @@ func genFill(t *rapid.T, indirect bool) Fill {
 		c = ops.ColorV{T: 2, R: r1}
 	default:
 		c = ops.ColorV{T: 3, R: gen.BlendT(t, "t"), G: rapid.SampledFrom([]byte{0x80 | gen.Sel(t, "b0"), 0xc0 | r1, 0xc0 | r2, 0x7f, 0x30}).Draw(t, "c0"), B: rapid.SampledFrom([]byte{0x80 | gen.Sel(t, "b1"), 0xc0 | r2, 0xc0 | r1, 0x7e, 0x64}).Draw(t, "c1")}
+		if rapid.IntRange(0, 2).Draw(t, "twice") == 0 {
+			// an opacity applied twice: the blend reads the register it writes, and the identical
+			// write is made two times in a row
+			c.G = 0xc0 | r1
+			f.Load[4] = ops.OpSetCSel(r1)
+			f.Load = append(f.Load, ops.OpSetCReg(0, false, c))
+			f.Twice = true
+		}
 	}
 	f.Color = &c
 	return f
@@ -409,6 +419,14 @@ func genCase(t *rapid.T) Case {
 	}
 	c.W, c.H = size("w"), size("h")
 	c.Off = [2]int{rapid.IntRange(0, 40).Draw(t, "ox"), rapid.IntRange(0, 40).Draw(t, "oy")}
+	switch rapid.IntRange(0, 7).Draw(t, "corner") {
+	case 0, 1: // the rectangle starts exactly at the image's own corner
+		c.Off = [2]int{0, 0}
+	case 2:
+		c.Off[0] = 0
+	case 3:
+		c.Off[1] = 0
+	}
 	if rapid.IntRange(0, 2).Draw(t, "imgorigin") == 0 {
 		c.Origin = [2]int{rapid.IntRange(-30, 30).Draw(t, "iox"), rapid.IntRange(-30, 30).Draw(t, "ioy")}
 	}
@@ -443,12 +461,18 @@ func TestPixelRelations(t *testing.T) {
 		if c.Relation == "offset" && (c.Origin[0] != 0 || c.Origin[1] != 0) {
 			labels = append(labels, "image-with-non-zero-origin")
 		}
+		if c.Off == [2]int{0, 0} {
+			labels = append(labels, "rectangle-at-the-corner-of-the-larger-image")
+		}
 		if c.Relation == "offset" && c.Sheet {
 			labels = append(labels, "renderer-and-rasteriser-reused-for-a-second-tile")
 		}
 		for _, p := range c.Paths {
 			if p.Fill.Gradient {
 				labels = append(labels, "gradient-fill")
+			}
+			if p.Fill.Twice {
+				labels = append(labels, "self-referential-blend-written-twice-in-a-row")
 				break
 			}
 		}
